@@ -254,3 +254,11 @@ EQUIVS = [
     E("c20-eq-snapshot-after-read", NOT, "                # drain() can suspend: iterate over a copy of the peers\n                for peer in list(self.connections.values()):\n                    if peer != writer:\n                        peer.write(data)\n                        await peer.drain()",
       "                peers = [peer for peer in self.connections.values() if peer != writer]\n                for peer in peers:\n                    peer.write(data)\n                    await peer.drain()"),
 ]
+
+# functions whose syntactic mutants are used for the thorough tier's sensitivity figure (sa/automut.py)
+ANCHORS = [
+    "nostr_relay.notifier:NotifyServer.handle_notify",
+    "nostr_relay.notifier:NotifyClient.connect",
+    "nostr_relay.notifier:NotifyClient.notify",
+    "nostr_relay.storage.base:BaseStorage.notify_other_processes",
+]
